@@ -337,6 +337,30 @@ def r53_point_branches(ctx, res):
     ctx.require(res, "R5.3", n, 6, "Point-branch returns")
 
 
+def r54_pure(ctx, res):
+    """a membership test that modifies an operand changes the answers of later membership tests"""
+    ef = ctx.effects
+    n = 0
+    for c in ctx.repo.classes():
+        for name in ("__contains__", "in_"):
+            m = c.methods.get(name)
+            if m is None:
+                continue
+            n += 1
+            s_ = ef.summ[m.qual]
+            direct = {r: w for r, w in s_.mut.items() if not w[1].startswith("call of ") or ".move {" in w[1] or "__setitem__ {" in w[1]}
+            ok = not direct
+            res.ob("R5.4", m.where(), "%s is effect-free" % m.short, ok,
+                   "writes nothing reachable from its operands" if ok else "writes %s" % sorted(direct))
+            for r, (where, what) in sorted(direct.items()):
+                res.violation("R5.4", m, m.node,
+                              "the membership predicate %s modifies %s in place (%s at %s): after one `in` test the same objects answer "
+                              "later membership tests differently" % (m.short, "its receiver" if r == "P:" + m.params[0] else "its operand",
+                                                                      what[:60], where),
+                              construct="%s writes %s" % (m.short, r), detail={"effect chain": ef.chain(m.qual, r)})
+    ctx.require(res, "R5.4", n, 9, "membership predicates")
+
+
 def run(ctx, res):
     res.explanation = (
         "Abstract evaluation of S.__contains__(x) for the 18 supported operand-type pairs (isinstance branches, "
@@ -353,4 +377,5 @@ def run(ctx, res):
     resolved = r51(ctx, res)
     r52(ctx, res, resolved)
     r53_point_branches(ctx, res)
+    r54_pure(ctx, res)
     res.undecided_ob("numerical truth of Point-in-S predicates (which side of an oblique edge), inclusive boundaries, tolerance band")
